@@ -60,12 +60,38 @@ fn stubs_for_goal(model: &Program, lprog: &CProgram, goal_text: &str) -> (String
             for a in t2.assocs.iter_mut() {
                 a.1.clear();
             }
+            t2.assoc_wcs.clear();
             text.push_str(&print_trait(model, &t2));
             text.push('\n');
             names.push(t.name.clone());
         }
     }
     (text, names)
+}
+
+/// `type Assoc where Self: Trait;` on some associated types (round 7, seed C23z): the where-clause names either a
+/// parameterless trait of the program or a fresh trait that nothing else mentions, so the logged program is only
+/// complete if the recording wrapper collects the names inside associated-type where-clauses of the traits it prints.
+fn add_assoc_where_clauses(t: &mut Tape, pg: &mut super::common::PG) {
+    let with_assoc: Vec<usize> = (0..pg.program.traits.len()).filter(|i| !pg.program.traits[*i].assocs.is_empty()).collect();
+    if with_assoc.is_empty() || t.choose(4) == 0 {
+        return;
+    }
+    let n = 1 + t.choose(2);
+    for k in 0..n {
+        let ti = with_assoc[t.choose(with_assoc.len())];
+        let ai = t.choose(pg.program.traits[ti].assocs.len());
+        let plain: Vec<usize> = (0..pg.program.traits.len()).filter(|i| pg.program.traits[*i].extra == 0 && pg.program.traits[*i].lang.is_none()).collect();
+        let target = if plain.is_empty() || t.choose(2) == 0 {
+            pg.program.traits.push(crate::gen::new_trait(&format!("Only{}", k), 0, crate::model::TraitKind::Inductive));
+            pg.program.traits.len() - 1
+        } else {
+            plain[t.choose(plain.len())]
+        };
+        if !pg.program.traits[ti].assoc_wcs.contains(&(ai, target)) {
+            pg.program.traits[ti].assoc_wcs.push((ai, target));
+        }
+    }
 }
 
 fn shrink_case(c: &Case) -> Vec<Case> {
@@ -117,7 +143,11 @@ impl Property for C23 {
                 let c = super::c06::C06.decode(t, tier);
                 (c.pg, "c06")
             }
-            13..=17 => (super::c07::C07.decode(t, tier), "c07"),
+            13..=17 => {
+                let mut pg = super::c07::C07.decode(t, tier);
+                add_assoc_where_clauses(t, &mut pg);
+                (pg, "c07")
+            }
             _ => (super::c08::C08.decode(t, tier), "c08"),
         };
         let n = pg.goals.len().max(1);
